@@ -303,6 +303,19 @@ TITLES = ["Spam", "Spam and eggs", "Fish &amp; chips", "Pie for two people", "4 
           "Beans < Peas", "Cakes < 5 mins", "Tea &lt; coffee", "a &#60; b", "1 < 2 > 0 & co"]
 
 
+# Multi-line setext headings: a serving phrase counts only at the very end of the heading text; one at the end of an
+# earlier line is part of the title and every line stays in the <h1>.
+MULTILINE_HEADINGS = [
+    (["Soup for 2", "hungry people"], HeadingInfo(1, "unscalable", "Soup for 2\nhungry people")),
+    (["Soup serves 3", "and for 2", "more"], HeadingInfo(1, "unscalable", "Soup serves 3\nand for 2\nmore")),
+    (["Stew to make 12", "portions, roughly"], HeadingInfo(1, "unscalable", "Stew to make 12\nportions, roughly")),
+    (["Big soup", "serves 6"], HeadingInfo(1, "scalable", "Big soup", "\n", "serves ", 6)),
+    (["Soup", "for 2 people", "for 4"], HeadingInfo(1, "scalable", "Soup\nfor 2 people", "\n", "for ", 4)),
+    (["Soup for 2", "or for 4"], HeadingInfo(1, "scalable", "Soup for 2\nor", " ", "for ", 4)),
+    (["Bread makes 2", "loaves", "serving 8"], HeadingInfo(1, "scalable", "Bread makes 2\nloaves", "\n", "serving ", 8)),
+]
+
+
 def gen_heading(c: Ctx, first: bool, force_h1: bool = False) -> Tuple[List[str], List[str]]:
     rng, doc = c.rng, c.doc
     level = rng.choice([1, 1, 1, 2, 3]) if first else rng.choice([1, 2, 2, 3, 6])
@@ -311,6 +324,12 @@ def gen_heading(c: Ctx, first: bool, force_h1: bool = False) -> Tuple[List[str],
     k = rng.randrange(10)
     info = HeadingInfo(level, "unscalable")
     import html as _html
+    if level == 1 and rng.random() < 0.12:
+        lines, info = rng.choice(MULTILINE_HEADINGS)
+        doc.headings.append(HeadingInfo(1, info.kind, info.title, info.space, info.prep, info.count))
+        doc.tags.append("heading-setext-multiline-" + info.kind)
+        under = "=" * rng.choice([3, 5, 9])
+        return list(lines) + [under], list(lines) + [under]
     if k <= 3:
         title = rng.choice(TITLES)
         sp = rng.choice([" ", " ", "  ", "\t"])
